@@ -3,9 +3,29 @@
  "property": "C12",
  "standin": "B-str",
  "bound": "str/bytes over a 12-symbol adversarial alphabet: all strings of length <= 3 (quick) / <= 5 (thorough) unformatted; hand-picked + 400 (quick) / 20 000 (thorough) seeded random strings of length <= 12 top-level and inside list/dict/tuple through black and format_command=cat; thorough adds every non-surrogate code point as a 1-char string",
- "input": "12 of 24 tasks",
- "detail": "time budget used up before all tasks finished (or a worker died); the bound stated for this stand-in was NOT covered"
+ "input": "a:top/none: '\\n\\xe9'",
+ "detail": "176 failing cases without a known finding in this run, 50 distinct (value, symptom) groups, 20 listed. untokenize(value_to_token(v)) = '\"\"\"\\\\\\n\\n\\xc3\\xa9\\\\\\n\"\"\"' evaluates to '\\n\\xc3\\xa9'"
 }
 """
 
-raise AssertionError('B-str did not finish inside its time budget')
+# run with: /verif/.venv/bin/python <this file>      (inline_snapshot is the editable install of /repo)
+import ast, os, tempfile, tokenize
+from pathlib import Path
+from executing import Source
+from inline_snapshot import _config
+from inline_snapshot._format import format_code
+from inline_snapshot._source_file import SourceFile
+from inline_snapshot._utils import value_to_token
+
+value = '\n\xe9'
+d = tempfile.mkdtemp()
+p = os.path.join(d, "snap.py")
+open(p, "w").write("from inline_snapshot import snapshot\n\nassert 1 == snapshot()\n")
+sf = SourceFile(Source.for_filename(p))
+code = tokenize.untokenize(value_to_token(value))
+print("value:", ascii(value))
+print("code :", ascii(code))
+result = ast.literal_eval(code)
+print("evals:", ascii(result))
+assert type(result) is type(value) and result == value, "generated literal does not evaluate back to the value"
+
